@@ -2,39 +2,44 @@ import Log4rsModel.Console.LemmasFormatted
 /-
 C18 — Console output obeys tty_only and colour policy; ANSI sequences are well-formed.
 
-Only property theorems and non-vacuity examples live here; helpers are in Console/Lemmas.lean.
-Every finite domain is enumerated COMPLETELY: the 27 environments × terminal/pipe × tty_only are
-covered by case analysis on the *types* (`Env`, `Bool`: every inhabitant, not a sample), the 243
-styles by `decide +kernel` over the whole table `allStyles` — these are proofs, marked
-[exhaustive]. Highlight nestings are unbounded; those theorems are by induction on the pattern.
-Several appenders in one process: `C18_appenders_independent` / `C18_plan_spec` (the process-wide lazy
-`COLOR_MODE` cell and the builder's setter calls are explicit in the model).
-Patterns whose highlight groups (and the groups around them) carry format specs are covered by the
-`…_formatted` theorems: the writer stack is `codeFmtOps` (C10), the only fact used about it is
-`C10_styles_preserved`.
+Only property theorems and non-vacuity examples live here; helpers are in Console/Lemmas*.lean.
 
-Two clauses of the statement are FALSE of the current code (model defaults `bufLen = 12`,
-`ttyOnlyUsesIsatty = false`):
-  F1  `SgrWellformed 12` fails: 64 of the 243 styles (text + background + intense(false)) store to
-      `buf[12]` of a `[u8; 12]` and panic                         → `C18_sgr_wellformed_false_at_12`
-  F2  `TtyOnlyStatement false` fails: `do_write` is keyed on "a colour writer was obtained"
-                                                                  → `C18_tty_only_false_of_current_code`
-For both, the full statement is proved of the repaired variant (`…_fixed`: buffer of 13, isatty
-test), a `…_partial` theorem covers the inputs on which the current code is right, and a
-`…_status` theorem ties the truth of the full statement to the model flag (so this file keeps
-compiling when the integrator flips the flags after the `fix:` commits).
+Every `C18_*` theorem is a statement about the model of the CURRENT code (`bufLen = 13`,
+`ttyOnlyUsesIsatty = true`, i.e. /repo after 2b701f0 and 1bc24e0) or about the executable Spec.
+The two defects this slice found are kept as history under `Hist_C18_*` (they speak about
+`setStyleN 12` and `doWriteWith false`, the code before those commits) and do not count.
+
+Finite domains are enumerated COMPLETELY: environments by case analysis on the types or by `decide`
+over `allEnvs` / `allEnvsExt` / `colourRows`, the 243 styles by `decide +kernel` over `allStyles` —
+these are proofs, marked [exhaustive]. Where the model and the Spec would otherwise be the same
+expression written twice (colour precedence, tty_only) the theorem is stated against a TABLE
+written out by hand from the statement (`colourTable`, `writeTable`). Highlight nestings and
+patterns are unbounded; those theorems are by induction on the pattern.
+
+Assumed, not proved (also in props.d/C18.json): reading decisions R1–R3 of Console/Spec.lean;
+`isatty` and the environment are inputs; the environment does not change after the first console
+writer was obtained (`C18_color_mode_read_once` says what happens otherwise); the writer stack is
+`codeFmtOps` (C10); unix.
 -/
 namespace Log4rs.Console
 open Log4rs Log4rs.Console.Spec
+open Log4rs.Pattern (Op Out Params codeFmtOps ofText)
 
 /-! ## the enumerations are complete -/
 
-/-- [exhaustive] `allEnvs` lists every environment the code can distinguish: 27. -/
-theorem C18_allEnvs_complete : (∀ e : Env, e ∈ allEnvs) ∧ allEnvs.length = 27 := by
-  refine ⟨?_, by decide⟩
-  intro e
-  rcases e with ⟨a, b, c⟩
-  cases a <;> cases b <;> cases c <;> decide
+/-- [exhaustive] `allEnvs` is exactly the environments inside the property's quantifier (every
+variable unset, "0" or another Unicode string): 27; `allEnvsExt` is every environment the code can
+distinguish (a value that is not valid Unicode included): 64. -/
+theorem C18_allEnvs_complete :
+    (∀ e : Env, e ∈ allEnvs ↔ e.inQuantifier = true) ∧ allEnvs.length = 27 ∧
+    (∀ e : Env, e ∈ allEnvsExt) ∧ allEnvsExt.length = 64 := by
+  refine ⟨?_, by decide, ?_, by decide⟩
+  · intro e
+    rcases e with ⟨a, b, c⟩
+    cases a <;> cases b <;> cases c <;> decide
+  · intro e
+    rcases e with ⟨a, b, c⟩
+    cases a <;> cases b <;> cases c <;> decide
 
 /-- `allStyles` is exactly the styles whose colours are one of the eight `Color`s: 243. -/
 theorem C18_allStyles_complete :
@@ -45,10 +50,18 @@ theorem C18_allStyles_complete :
 
 /-! ## (C) colour precedence -/
 
-/-- [exhaustive: 27 environments × terminal/pipe] A colour writer — the only source of escape
-sequences — is obtained exactly when the statement's rule enables colour: never under NO_COLOR,
-otherwise always under CLICOLOR_FORCE, otherwise never under CLICOLOR=0, otherwise only on
-terminals. -/
+/-- [exhaustive: the 54 rows] The model against the TABLE written out from the statement: a colour
+writer — the only source of escape sequences — is obtained on exactly the rows the table marks. -/
+theorem C18_color_precedence_table :
+    colourRows.map (fun r => (writerKind (colorMode r.1) r.2).isTty) = colourTable := by decide
+
+/-- [exhaustive: the 54 rows] The Spec's cascade ("never under NO_COLOR, otherwise always under
+CLICOLOR_FORCE, otherwise never under CLICOLOR=0, otherwise only on terminals") is that table. -/
+theorem C18_color_rule_is_table :
+    colourRows.map (fun r => colourEnabled r.1 r.2) = colourTable ∧ colourTable.length = 54 := by decide
+
+/-- [exhaustive: all 64 environments × terminal/pipe] the same for every environment the code can
+distinguish (a non-Unicode value counts as not set, R2). -/
 theorem C18_color_precedence (e : Env) (tty : Bool) :
     (writerKind (colorMode e) tty = .tty) ↔ colourEnabled e tty = true := by
   rcases e with ⟨a, b, c⟩
@@ -69,18 +82,39 @@ theorem C18_color_mode_table (e : Env) :
   rcases e with ⟨a, b, c⟩
   cases a <;> cases b <;> cases c <;> rfl
 
+/-- [exhaustive] READING GAP (R1). The reading used here ("set" = present and not "0") and the
+no-color.org reading ("NO_COLOR present, whatever its value") disagree exactly when NO_COLOR is
+present but does not count as set here ("0", or not valid Unicode) and colour is otherwise on … -/
+theorem C18_reading_gap (e : Env) (tty : Bool) :
+    colourEnabled e tty ≠ colourEnabledStd e tty ↔
+      ((e.noColor = .zero ∨ e.noColor = .nonUnicode) ∧ colourEnabled e tty = true) := by
+  rcases e with ⟨a, b, c⟩
+  cases a <;> cases b <;> cases c <;> cases tty <;> decide
+
+/-- … which inside the property's quantifier is 10 of the 54 rows (all with NO_COLOR="0"): on
+those rows `C18_color_precedence*` holds by the reading decision, not by the statement alone. -/
+theorem C18_reading_gap_count :
+    (colourRows.filter fun r => colourEnabled r.1 r.2 != colourEnabledStd r.1 r.2).length = 10 ∧
+    (colourRows.filter fun r => r.1.noColor == .zero && colourEnabled r.1 r.2).length = 10 ∧
+    colourRows.length = 54 := by decide
+
+/-- [exhaustive] R2 on the model's side: a value that is not valid Unicode is treated by the code
+exactly like an absent variable, for each of the three variables. -/
+theorem C18_non_unicode_is_unset (e : Env) :
+    let u : EnvVal → EnvVal := fun v => if v = .nonUnicode then .unset else v
+    colorMode e = colorMode { noColor := u e.noColor, clicolor := u e.clicolor, clicolorForce := u e.clicolorForce } := by
+  rcases e with ⟨a, b, c⟩
+  cases a <;> cases b <;> cases c <;> rfl
+
 /-! ## (S) one well-formed SGR sequence with exactly the requested attributes -/
 
-/-- the full clause (S) for a buffer of `n` bytes -/
-def SgrWellformed (n : Nat) : Prop := ∀ s ∈ allStyles, setStyleN n s = .ok (sgr s)
-
-/-- [exhaustive: 243 styles] with a 13-byte buffer every style request yields the canonical
-sequence ESC [ 0 (;3c)? (;4c)? (;1|;22)? m of exactly its attributes. -/
-theorem C18_sgr_wellformed_fixed : SgrWellformed 13 := by
-  unfold SgrWellformed; decide +kernel
+/-- [exhaustive: 243 styles] every style request yields the canonical sequence
+ESC [ 0 (;3c)? (;4c)? (;1|;22)? m of exactly its attributes; no panic. -/
+theorem C18_sgr_wellformed : ∀ s ∈ allStyles, setStyle s = .ok (sgr s) := by
+  unfold setStyle; decide +kernel
 
 /-- the same, symbolically in the colour digits (no table) -/
-theorem C18_sgr_wellformed_fixed_symbolic (s : Style) : setStyleN 13 s = .ok (sgr s) := by
+theorem C18_sgr_wellformed_symbolic (s : Style) : setStyle s = .ok (sgr s) := by
   rcases s with ⟨t, b, i⟩
   cases t <;> cases b <;> (rcases i with _ | _ | _) <;> rfl
 
@@ -89,8 +123,7 @@ parser reads back precisely the style that was requested — nothing added, noth
 theorem C18_sgr_exact_attributes : ∀ s ∈ allStyles, parseSgr (sgr s) = some s := parseSgr_table
 
 /-- The grammar of the specification is exact, for every byte string: the strict parser accepts
-`bs` as the style `s` iff `s` is one of the 243 styles and `bs` is its canonical sequence. (So the
-scanner used for the verdict on real output accepts nothing but well-formed sequences.) -/
+`bs` as the style `s` iff `s` is one of the 243 styles and `bs` is its canonical sequence. -/
 theorem C18_sgr_grammar_exact (bs : Bytes) (s : Style) :
     parseSgr bs = some s ↔ (s ∈ allStyles ∧ bs = sgr s) := by
   constructor
@@ -99,101 +132,37 @@ theorem C18_sgr_grammar_exact (bs : Bytes) (s : Style) :
   · rintro ⟨hs, rfl⟩
     exact parseSgr_table s hs
 
-/-- [exhaustive: 243 styles] F1, exact extent: with the 12-byte buffer of the current code
-`set_style` panics on exactly the styles with text, background and `intense(false)` … -/
-theorem C18_sgr_overflow_exact :
-    ∀ s ∈ allStyles, (setStyleN 12 s).isPanic = overflowClass s := by
-  decide +kernel
+/-- SOUNDNESS of the strict scanner that the Spec verdict runs on real output, for every byte
+string: when it accepts, the tokens it returns render back to exactly the input, every SGR token is
+one of the 243 styles (in its canonical spelling), and no literal token is an ESC byte — i.e. every
+ESC on the wire starts exactly one well-formed sequence. -/
+theorem C18_scan_sound (bs : Bytes) (toks : List Tok) (h : scan bs = some toks) :
+    render toks = bs ∧ (∀ s, Tok.sgr s ∈ toks → s ∈ allStyles) ∧ (∀ b, Tok.byte b ∈ toks → b ≠ 27) := by
+  simpa using scanFrom_sound bs none toks h
 
-/-- … which are 64 of the 243. -/
-theorem C18_sgr_overflow_count :
-    (allStyles.filter overflowClass).length = 64 ∧ allStyles.length = 243 := by
-  decide +kernel
-
-/-- F1: the full clause (S) is false of the code as it is (12-byte buffer). -/
-theorem C18_sgr_wellformed_false_at_12 : ¬ SgrWellformed 12 := by
-  unfold SgrWellformed; decide +kernel
-
-/-- F1, the witness used as replay: red on blue, `intense(false)`. -/
-theorem C18_sgr_overflow_witness :
-    (setStyleN 12 { text := some 1, background := some 4, intense := some false }).isPanic = true := by
-  decide
-
-/-- [exhaustive: the other 179 styles] partial version for the model's current flag. -/
-theorem C18_sgr_wellformed_partial :
-    ∀ s ∈ allStyles, overflowClass s = false → setStyle s = .ok (sgr s) := by
-  unfold setStyle; decide +kernel
-
-/-- [exhaustive] the full clause holds of the model exactly when its buffer flag is ≥ 13
-(false now; true after the flip). -/
-theorem C18_sgr_wellformed_status : SgrWellformed bufLen ↔ 13 ≤ bufLen := by
-  unfold SgrWellformed; decide +kernel
+/-- COMPLETENESS of the scanner: a token list without ESC literals whose SGR tokens are among the
+243 styles is read back exactly from its rendering. -/
+theorem C18_scan_complete (toks : List Tok) (hb : ∀ b, Tok.byte b ∈ toks → b ≠ 27)
+    (hs : ∀ s, Tok.sgr s ∈ toks → s ∈ allStyles) : scan (render toks) = some toks :=
+  scan_render toks hb (fun s h => scan_sgr_table s (hs s h))
 
 /-! ## (W) tty_only -/
 
-/-- the full clause (W) for a given way of computing `do_write` -/
-def TtyOnlyStatement (usesIsatty : Bool) : Prop :=
-  ∀ (e : Env) (tty ttyOnly : Bool),
-    doWriteWith usesIsatty (writerKind (colorMode e) tty) tty ttyOnly = shouldWrite tty ttyOnly
+/-- [exhaustive: 64 environments × the 4 rows] The model against the TABLE written out from the
+statement: whatever the colour variables say, a restricted appender writes iff its target is a
+terminal and an unrestricted one always writes. -/
+theorem C18_tty_only_table :
+    ∀ e ∈ allEnvsExt, ∀ row ∈ writeTable,
+      doWrite (writerKind (colorMode e) row.1.1) row.1.1 row.1.2 = row.2 := by decide
 
-/-- [exhaustive: 27 × 2 × 2] with `do_write` decided by an isatty test of the target stream, a
-restricted appender writes iff the target is a terminal and an unrestricted one always writes —
-whatever the colour variables say. -/
-theorem C18_tty_only_spec_fixed : TtyOnlyStatement true := by
-  intro e tty ttyOnly
-  rcases e with ⟨a, b, c⟩
-  cases a <;> cases b <;> cases c <;> cases tty <;> cases ttyOnly <;> rfl
+/-- the Spec's one-line rule is that table -/
+theorem C18_write_rule_is_table : ∀ row ∈ writeTable, shouldWrite row.1.1 row.1.2 = row.2 := by decide
 
-/-- F2 witness 1: NO_COLOR=1 on a real terminal silences a tty_only appender. -/
-theorem C18_tty_only_F2_no_color_on_terminal_is_silent :
-    doWriteWith false (writerKind (colorMode { noColor := .one }) true) true true = false
-    ∧ shouldWrite true true = true := by decide
-
-/-- F2 witness 2: CLICOLOR_FORCE=1 makes a tty_only appender write into a pipe. -/
-theorem C18_tty_only_F2_force_on_pipe_writes :
-    doWriteWith false (writerKind (colorMode { clicolorForce := .one }) false) false true = true
-    ∧ shouldWrite false true = false := by decide
-
-/-- F2: the full clause (W) is false of the code as it is. -/
-theorem C18_tty_only_false_of_current_code : ¬ TtyOnlyStatement false := by
-  intro h
-  have := h { noColor := .one } true true
-  revert this
-  decide
-
-/-- [exhaustive] F2, exact extent: the current code is wrong on exactly the restricted appenders
-whose colour decision differs from "the target is a terminal". -/
-theorem C18_tty_only_exact_failures (e : Env) (tty ttyOnly : Bool) :
-    (doWriteWith false (writerKind (colorMode e) tty) tty ttyOnly ≠ shouldWrite tty ttyOnly) ↔
-      (ttyOnly = true ∧ colourEnabled e tty ≠ tty) := by
-  rcases e with ⟨a, b, c⟩
-  cases a <;> cases b <;> cases c <;> cases tty <;> cases ttyOnly <;> decide
-
-/-- [exhaustive] partial version for the model's current flag: on the colour-neutral rows (mode
-Auto: no NO_COLOR, no CLICOLOR_FORCE, CLICOLOR not 0) the restricted appender is right. -/
-theorem C18_tty_only_spec_partial (e : Env) (tty ttyOnly : Bool) (h : colorMode e = .auto) :
+/-- [exhaustive] the same as one equation, for all environments, terminal status and flag -/
+theorem C18_tty_only_spec (e : Env) (tty ttyOnly : Bool) :
     doWrite (writerKind (colorMode e) tty) tty ttyOnly = shouldWrite tty ttyOnly := by
   rcases e with ⟨a, b, c⟩
-  cases a <;> cases b <;> cases c <;> cases tty <;> cases ttyOnly <;>
-    first | rfl | (exfalso; revert h; decide)
-
-/-- [exhaustive] an unrestricted appender always writes — true of both variants of the code. -/
-theorem C18_unrestricted_always_writes (usesIsatty : Bool) (e : Env) (tty : Bool) :
-    doWriteWith usesIsatty (writerKind (colorMode e) tty) tty false = true := by
-  rcases e with ⟨a, b, c⟩
-  cases usesIsatty <;> cases a <;> cases b <;> cases c <;> cases tty <;> rfl
-
-/-- [exhaustive] the full clause holds of the model exactly when its flag selects the isatty
-test (false now; true after the flip). -/
-theorem C18_tty_only_status : TtyOnlyStatement ttyOnlyUsesIsatty ↔ ttyOnlyUsesIsatty = true := by
-  constructor
-  · intro h
-    cases hf : ttyOnlyUsesIsatty with
-    | true => rfl
-    | false => exact absurd (hf ▸ h) C18_tty_only_false_of_current_code
-  · intro h
-    rw [h]
-    exact C18_tty_only_spec_fixed
+  cases a <;> cases b <;> cases c <;> cases tty <;> cases ttyOnly <;> rfl
 
 /-! ## (H) highlighted groups, every level, every nesting -/
 
@@ -243,7 +212,7 @@ theorem C18_no_colour_no_escape (level : Nat) (cs : Chunks) :
 
 `{h(…):<8.5}`, `{({h(…)}):.3}`, …: the group's `set_style` calls travel through the width / fill /
 alignment writer stack of `Chunk::encode` (`codeFmtOps`, proved in C10 to be what the byte-level
-writers do; `C10_styles_preserved`: the stack never drops, duplicates or reorders style calls). -/
+writers do). -/
 
 /-- a sink can serve every style request a pattern makes (the highlight styles need ≤ 10 bytes) -/
 theorem C18_formatted_styles_fit (level : Nat) (f : FChunks) :
@@ -254,19 +223,91 @@ theorem C18_formatted_styles_fit (level : Nat) (f : FChunks) :
   · exact ⟨setStyleN_highlight bufLen bufLen_ok level s h, highlightStyle_mem level s h⟩
   · subst h; exact ⟨setStyleN_plain bufLen bufLen_ok, plain_mem⟩
 
+theorem C18_formatted_bytes (kind : WriterKind) (level : Nat) (f : FChunks) :
+    encodeFormatted kind level f = .ok (render (toksOfOps kind.isTty (opsOf level f))) :=
+  sinkN_eq bufLen kind _ (fun s hs => (C18_formatted_styles_fit level f s hs).1)
+
+/-- POSITION LAW, token-exact. For every writer kind, level and pattern whose parameters satisfy
+the side condition of the width law (every minimum ≤ its maximum), at every nesting level: the
+bytes are exactly the rendering of the SPECIFIED stream `specFToks` — the pattern's text cut and
+padded as C10's statement says, with, for every highlighted group of a styled level, the style
+sequence immediately before the group's (visible) content and ESC[0m immediately after it, the
+fill characters outside the pair. No hypothesis about ESC in text, message or fill. -/
+theorem C18_formatted_eq_spec (kind : WriterKind) (level : Nat) (f : FChunks) (h : fOrdered f = true) :
+    encodeFormatted kind level f = .ok (render (specFToks kind.isTty level f)) := by
+  rw [C18_formatted_bytes, specFToks, opsOf_eq_specOps level f h]
+
+/-- GROUP SHAPE for ARBITRARY parameters (also minimum > maximum, maximum 0): what one highlighted
+group hands on is — fill characters, the level's style, a cut of the group's own content that keeps
+all its style requests, the reset, fill characters. So the reset always follows the group's text,
+never precedes it; without a maximum width the content is complete. -/
+theorem C18_group_shape (p : Params) (level : Nat) (st : Style) (h : highlightStyle level = some st)
+    (x : Out) :
+    ∃ pre mid post,
+      codeFmtOps p (wrapHighlight level x)
+        = ofText pre ++ (Op.style st :: mid ++ Op.style Style.plain :: ofText post) ∧
+      (∀ c ∈ pre ++ post, c = p.fill) ∧ mid.Sublist x ∧
+      Out.styles mid = Out.styles x ∧
+      (p.maxW = none → mid = x) := by
+  have hw : wrapHighlight level x = Op.style st :: x ++ [Op.style Style.plain] := by
+    simp [wrapHighlight, h]
+  have hmem : ∀ (k j : Nat) (a b : List Char), (∀ c ∈ a, c = p.fill) → (∀ c ∈ b, c = p.fill) →
+      ∀ c ∈ a.take k ++ b.take j, c = p.fill := by
+    intro k j a b ha hb c hc
+    rcases List.mem_append.mp hc with hc | hc
+    · exact ha c (List.mem_of_mem_take hc)
+    · exact hb c (List.mem_of_mem_take hc)
+  have hnil : ∀ c ∈ ([] : List Char), c = p.fill := by intro c hc; cases hc
+  unfold codeFmtOps
+  rw [hw]
+  generalize hn : (Out.text (Op.style st :: x ++ [Op.style Style.plain])).length = n
+  cases hm : p.minW with
+  | none =>
+    cases hM : p.maxW with
+    | none => exact ⟨[], x, [], by simp [ofText], by simp, List.Sublist.refl _, rfl, fun _ => rfl⟩
+    | some M =>
+      refine ⟨List.take M [], Pattern.truncOps (M - ([] : List Char).length) x,
+        List.take (M - ([] : List Char).length - (Out.text x).length) [], ?_, hmem _ _ _ _ hnil hnil,
+        truncOps_sublist _ x, styles_truncOps _ x, by simp⟩
+      have := truncOps_bracket M [] [] st x
+      simpa [ofText] using this
+  | some m =>
+    have hpad : ∀ c ∈ Pattern.fills p.fill (m - n), c = p.fill := fills_all _ _
+    cases hr : p.right with
+    | false =>
+      cases hM : p.maxW with
+      | none =>
+        exact ⟨[], x, Pattern.fills p.fill (m - n), by simp [ofText],
+          fun c hc => hpad c (by simpa using hc), List.Sublist.refl _, rfl, fun _ => rfl⟩
+      | some M =>
+        refine ⟨List.take M [], Pattern.truncOps (M - ([] : List Char).length) x,
+          List.take (M - ([] : List Char).length - (Out.text x).length) (Pattern.fills p.fill (m - n)),
+          ?_, hmem _ _ _ _ hnil hpad, truncOps_sublist _ x, styles_truncOps _ x, by simp⟩
+        have := truncOps_bracket M [] (Pattern.fills p.fill (m - n)) st x
+        simpa [ofText] using this
+    | true =>
+      cases hM : p.maxW with
+      | none =>
+        exact ⟨Pattern.fills p.fill (m - n), x, [], by simp [ofText],
+          fun c hc => hpad c (by simpa using hc), List.Sublist.refl _, rfl, fun _ => rfl⟩
+      | some M =>
+        refine ⟨List.take M (Pattern.fills p.fill (m - n)),
+          Pattern.truncOps (M - (Pattern.fills p.fill (m - n)).length) x,
+          List.take (M - (Pattern.fills p.fill (m - n)).length - (Out.text x).length) [],
+          ?_, hmem _ _ _ _ hpad hnil, truncOps_sublist _ x, styles_truncOps _ x, by simp⟩
+        have := truncOps_bracket M (Pattern.fills p.fill (m - n)) [] st x
+        simpa [ofText] using this
+
 /-- For every writer kind, level and pattern whose highlight groups — and the groups around them,
-to any depth — carry ARBITRARY parameters (any fill, either alignment, any minimum and maximum
-width, maximum 0 and minimum > maximum included): the encoder output is well defined (no panic),
-and the SGR sequences in it are exactly one opening style and one reset per highlighted group of
-a styled level, in nesting order (`specStyles`, which ignores all parameters) — every opening
-sequence is matched by a later reset, however much of the group's text was cut. On a writer
-without colour there is no sequence at all. -/
+to any depth — carry ARBITRARY parameters: no panic, and the SGR sequences in the output are
+exactly one opening style and one reset per highlighted group of a styled level, in nesting order
+(`specStyles`, which ignores all parameters), properly nested; on a writer without colour there is
+no sequence at all. (For the POSITIONS see `C18_formatted_eq_spec` and `C18_group_shape`.) -/
 theorem C18_highlight_reset_formatted (kind : WriterKind) (level : Nat) (f : FChunks) :
-    encodeFormatted kind level f = .ok (render (toksOfOps kind.isTty (opsOf level f))) ∧
-    sgrToks (toksOfOps kind.isTty (opsOf level f)) = (if kind.isTty then specStyles level f else []) ∧
-    wellNested (specStyles level f) = true := by
-  refine ⟨?_, ?_, ?_⟩
-  · exact sinkN_eq bufLen kind _ (fun s hs => (C18_formatted_styles_fit level f s hs).1)
+    ∃ toks, encodeFormatted kind level f = .ok (render toks) ∧
+      sgrToks toks = (if kind.isTty then specStyles level f else []) ∧
+      wellNested (specStyles level f) = true := by
+  refine ⟨_, C18_formatted_bytes kind level f, ?_, ?_⟩
   · rw [sgrToks_toksOfOps, styles_opsOf]
   · have := wellNestedFrom_specStyles level f 0 []
     simpa [wellNested, wellNestedFrom] using this
@@ -281,144 +322,272 @@ theorem C18_highlight_group_followed_by_reset_formatted (p : Pattern.Params) (le
   rw [styles_opsOf]
   simp [specStyles, h]
 
-/-- The strict scanner accepts the output of every such pattern, reads back exactly the style
-requests, and the executable Spec verdict used on the real bytes is `ok` on the model's bytes. -/
-theorem C18_formatted_output_scans (kind : WriterKind) (level : Nat) (f : FChunks)
-    (h : fEscFree f = true) :
-    ∃ bs toks, encodeFormatted kind level f = .ok bs ∧ scan bs = some toks ∧
-      sgrToks toks = (if kind.isTty then specStyles level f else []) ∧
-      formattedVerdict kind.isTty level f bs = .ok := by
-  obtain ⟨h1, h2, h3⟩ := C18_highlight_reset_formatted kind level f
-  have hscan : scan (render (toksOfOps kind.isTty (opsOf level f))) =
-      some (toksOfOps kind.isTty (opsOf level f)) := by
-    apply scan_render
-    · exact toksOfOps_bytes _ _ (opsOf_escFree level f h)
-    · intro s hs
-      exact scan_sgr_table s (C18_formatted_styles_fit level f s (toksOfOps_sgrs _ _ s hs)).2
-  refine ⟨_, _, h1, hscan, h2, ?_⟩
-  simp only [formattedVerdict, hscan, h2]
-  cases kind <;> simp [WriterKind.isTty, h3]
+/-- The executable Spec verdict that is run on the real bytes answers `ok` on the model's bytes,
+for EVERY pattern (token-exact branch for ordered parameters, style-protocol branch otherwise) —
+so a FAIL of the verdict on real output is a difference between code and model or a violation,
+never an artefact of the verdict. -/
+theorem C18_formatted_verdict_accepts_model (kind : WriterKind) (level : Nat) (f : FChunks) :
+    ∃ bs, encodeFormatted kind level f = .ok bs ∧ formattedVerdict kind.isTty level f bs = .ok := by
+  refine ⟨_, C18_formatted_bytes kind level f, ?_⟩
+  unfold formattedVerdict
+  cases ho : fOrdered f with
+  | true =>
+    simp only [if_true]
+    rw [specFToks, opsOf_eq_specOps level f ho]
+    simp
+  | false =>
+    simp only [Bool.false_eq_true, if_false]
+    cases he : fEscFree f with
+    | false => simp
+    | true =>
+      have hscan : scan (render (toksOfOps kind.isTty (opsOf level f))) =
+          some (toksOfOps kind.isTty (opsOf level f)) := by
+        apply scan_render
+        · exact toksOfOps_bytes _ _ (opsOf_escFree level f he)
+        · intro s hs
+          exact scan_sgr_table s (C18_formatted_styles_fit level f s (toksOfOps_sgrs _ _ s hs)).2
+      have hw : wellNested (specStyles level f) = true := by
+        have := wellNestedFrom_specStyles level f 0 []
+        simpa [wellNested, wellNestedFrom] using this
+      simp only [Bool.not_true, Bool.false_eq_true, if_false, hscan, stylesVerdict,
+        sgrToks_toksOfOps, styles_opsOf]
+      cases kind <;> simp [WriterKind.isTty, hw]
 
 /-- Patterns without any width parameter: the formatted model is the byte-level model of
-`Model.lean` (so `C18_highlight_reset` … `C18_console_spec_fixed` speak about the same encoder). -/
+`Model.lean` (so `C18_highlight_reset` … `C18_console_spec` speak about the same encoder). -/
 theorem C18_formatted_generalises (kind : WriterKind) (level : Nat) (f : FChunks)
     (h : f.unformatted = true) :
     encodeFormatted kind level f = encodeChunks kind level f.erase := by
-  rw [(C18_highlight_reset_formatted kind level f).1, C18_highlight_reset, specEncode,
-    toksOfOps_unformatted _ _ _ h]
+  rw [C18_formatted_bytes, C18_highlight_reset, specEncode, toksOfOps_unformatted _ _ _ h]
 
 /-! ## the appender end to end: stream, silence, colour -/
 
-/-- The repaired code (13-byte buffer, isatty test) satisfies the whole statement: for every
+/-- The whole statement for one appender and patterns without width parameters: for every
 environment, terminal/pipe per stream, target, tty_only, level and pattern, the chosen stream
 receives the specified bytes (or nothing when a restricted appender's target is no terminal) and
 the other stream nothing. -/
-theorem C18_console_spec_fixed (s : Setup) (level : Nat) (cs : Chunks) :
-    appendWith 13 true s level cs = .ok (expectedAppend s level cs) := by
-  have hk : (writerKind (colorMode s.env) s.targetIsatty).isTty = colourEnabled s.env s.targetIsatty := by
-    have := C18_color_precedence s.env s.targetIsatty
-    cases hw : writerKind (colorMode s.env) s.targetIsatty <;>
-      cases hc : colourEnabled s.env s.targetIsatty <;> simp_all [WriterKind.isTty]
-  simp only [appendWith, expectedAppend, doWriteWith, if_true, shouldWrite]
-  rw [encodeChunksN_eq_spec 13 (Or.inr rfl), hk]
-  cases s.targetIsatty <;> cases s.ttyOnly <;> simp [obind]
-
-/-- Partial version for the model's current flags: on the colour-neutral rows and for every
-unrestricted appender the current code satisfies the whole statement. -/
-theorem C18_console_spec_partial (s : Setup) (level : Nat) (cs : Chunks)
-    (h : colorMode s.env = .auto ∨ s.ttyOnly = false) :
+theorem C18_console_spec (s : Setup) (level : Nat) (cs : Chunks) :
     append s level cs = .ok (expectedAppend s level cs) := by
-  have hk : (writerKind (colorMode s.env) s.targetIsatty).isTty = colourEnabled s.env s.targetIsatty := by
-    have := C18_color_precedence s.env s.targetIsatty
-    cases hw : writerKind (colorMode s.env) s.targetIsatty <;>
-      cases hc : colourEnabled s.env s.targetIsatty <;> simp_all [WriterKind.isTty]
-  have hw : doWriteWith ttyOnlyUsesIsatty (writerKind (colorMode s.env) s.targetIsatty)
-      s.targetIsatty s.ttyOnly = shouldWrite s.targetIsatty s.ttyOnly := by
-    rcases h with h | h
-    · exact C18_tty_only_spec_partial s.env s.targetIsatty s.ttyOnly h
-    · rw [h, C18_unrestricted_always_writes]; simp [shouldWrite]
-  simp only [append, appendWith, expectedAppend, hw]
-  rw [encodeChunksN_eq_spec bufLen bufLen_ok, hk]
-  cases shouldWrite s.targetIsatty s.ttyOnly <;> simp [obind]
+  show appendEnc true s (fun kind l => encodeChunksN 13 kind l cs) level = _
+  rw [appendEnc_spec s _ (fun colour l => specToks colour l cs) level
+    (fun k l => encodeChunksN_eq_spec 13 (Or.inr rfl) k l cs)]
+  rfl
 
-/-- Escape bytes reach a stream only when colour is enabled by the statement's rule — true of the
-current code as well (F2 concerns *whether* it writes, not what). -/
-theorem C18_escapes_only_when_enabled (s : Setup) (level : Nat) (cs : Chunks)
-    (hf : escFree cs = true) (st : Streams) (h : append s level cs = .ok st)
+/-- The same for patterns WITH width parameters on and around highlight groups (ordered
+parameters): the chosen stream receives exactly the specified token stream `specFToks` for the
+colour decision of the statement, the other stream nothing, a restricted appender on a
+non-terminal nothing at all. -/
+theorem C18_console_spec_formatted (s : Setup) (level : Nat) (f : FChunks) (h : fOrdered f = true) :
+    appendFormatted s level f =
+      .ok (if shouldWrite s.targetIsatty s.ttyOnly then
+        Streams.on s.target (render (specFToks (colourEnabled s.env s.targetIsatty) level f)) else {}) := by
+  show appendEnc true s (fun kind l => encodeFormattedN 13 kind l f) level = _
+  exact appendEnc_spec s _ (fun colour l => specFToks colour l f) level
+    (fun k l => C18_formatted_eq_spec k l f h)
+
+/-- … and for ARBITRARY parameters, with the model's own operation stream on the right-hand side
+(who writes, to which stream, and whether style requests become sequences is still the statement's). -/
+theorem C18_console_spec_formatted_any (s : Setup) (level : Nat) (f : FChunks) :
+    appendFormatted s level f =
+      .ok (if shouldWrite s.targetIsatty s.ttyOnly then
+        Streams.on s.target (render (toksOfOps (colourEnabled s.env s.targetIsatty) (opsOf level f))) else {}) := by
+  show appendEnc true s (fun kind l => encodeFormattedN 13 kind l f) level = _
+  exact appendEnc_spec s _ (fun colour l => toksOfOps colour (opsOf l f)) level
+    (fun k l => C18_formatted_bytes k l f)
+
+/-- Escape bytes reach a stream only when colour is enabled by the statement's rule — for every
+pattern with arbitrary parameters whose text, message and fill characters contain no ESC. -/
+theorem C18_escapes_only_when_enabled (s : Setup) (level : Nat) (f : FChunks)
+    (hf : fEscFree f = true) (st : Streams) (h : appendFormatted s level f = .ok st)
     (hesc : 27 ∈ st.out ∨ 27 ∈ st.err) : colourEnabled s.env s.targetIsatty = true := by
-  apply (C18_color_precedence s.env s.targetIsatty).mp
-  cases hk : writerKind (colorMode s.env) s.targetIsatty with
-  | tty => rfl
-  | raw =>
+  rw [C18_console_spec_formatted_any] at h
+  cases hc : colourEnabled s.env s.targetIsatty with
+  | true => rfl
+  | false =>
     exfalso
-    simp only [append, appendWith, hk] at h
-    rw [encodeChunksN_eq_spec bufLen bufLen_ok] at h
-    simp only [WriterKind.isTty, specEncode, specToks_no_colour, render_bytes, obind] at h
-    have hp := plainText_escFree cs hf
+    rw [hc] at h
+    have hno : ∀ b ∈ render (toksOfOps false (opsOf level f)), b ≠ 27 := by
+      have hb := toksOfOps_bytes false _ (opsOf_escFree level f hf)
+      have hs : ∀ s', Tok.sgr s' ∈ toksOfOps false (opsOf level f) → False := by
+        intro s' hs'
+        have : Tok.sgr s' ∈ toksOfOps false (opsOf level f) := hs'
+        have h0 : sgrToks (toksOfOps false (opsOf level f)) = [] := by rw [sgrToks_toksOfOps]; rfl
+        have hm := mem_sgrToks _ _ this
+        rw [h0] at hm
+        cases hm
+      exact render_no_esc _ hb hs
     split at h
     · cases h
       revert hesc
-      cases s.target <;> simp [Streams.on] <;> exact fun hm => hp 27 hm rfl
+      cases s.target <;> simp [Streams.on] <;> exact fun hm => hno 27 hm rfl
     · cases h
       simp at hesc
 
+/-- What is ALWAYS true of the bytes, ESC in the content or not: they are the pattern's own
+characters (UTF-8, verbatim) interleaved with the SGR sequences of the pattern's style requests —
+nothing else is ever inserted. So an ESC on the wire while colour is disabled can only be one the
+pattern text, the message or a fill character brought along. -/
+theorem C18_bytes_are_text_and_styles (s : Setup) (level : Nat) (f : FChunks) (st : Streams)
+    (h : appendFormatted s level f = .ok st) :
+    ∃ toks, (st.out = render toks ∨ st.err = render toks) ∧
+      (literalBytes toks = [] ∨ literalBytes toks = utf8 (Out.text (opsOf level f))) ∧
+      (sgrToks toks = [] ∨ sgrToks toks = specStyles level f) := by
+  rw [C18_console_spec_formatted_any] at h
+  split at h
+  · cases h
+    refine ⟨toksOfOps (colourEnabled s.env s.targetIsatty) (opsOf level f), ?_, Or.inr (literalBytes_toksOfOps _ _), ?_⟩
+    · cases s.target <;> simp [Streams.on]
+    · rw [sgrToks_toksOfOps, styles_opsOf]; cases colourEnabled s.env s.targetIsatty <;> simp
+  · cases h
+    exact ⟨[], Or.inl rfl, Or.inl rfl, Or.inl rfl⟩
+
 /-! ## several appenders in one process: each one is judged by its own stream -/
 
-/-- The builder's setters only store: whatever the order of `.target(..)` / `.tty_only(..)`, and
-through the config deserializer, the builder ends up with exactly the item's target and flag. -/
+/-- The builder's setters only store: whatever the order of `.target(..)` / `.tty_only(..)`, through
+the config deserializer with both keys, and through it with default-valued keys left out, the
+builder ends up with exactly the item's target and flag. -/
 theorem C18_builder_call_order_irrelevant (it : PlanItem) :
     builderOf it = { target := it.target, ttyOnly := it.ttyOnly } := builderOf_eq it
 
-/-- For every plan (any number of appenders, any targets, flags, builder call orders, in any build
-order), every environment and every terminal status of the two streams, for both variants of the
-code: the output of the process is the single-appender outputs one after the other, where each
-single-appender output depends on nothing but the environment, ITS OWN target, that target's
-terminal status and its own tty_only flag (`setupOf` has no call order, and `appendAllWith` never
-looks at the other stream's status: `C18_console_spec_fixed`). The lazily initialised process-wide
-`COLOR_MODE` is threaded through the builds explicitly; it cannot carry anything from one appender
-to the next. -/
-theorem C18_appenders_independent (n : Nat) (usesIsatty : Bool) (g : Global) (items : List PlanItem)
-    (cs : Nat → Chunks) (levels : List Nat) :
-    runPlanWith n usesIsatty g items cs levels =
-      seqStreams (items.map fun it => appendAllWith n usesIsatty (setupOf g it) cs levels) := by
-  unfold runPlanWith
-  rw [buildAllWith_eq usesIsatty g items {} (Or.inl rfl), appendAllBuilt_eq]
+/-- ASSUMING the environment is the same at every build (`Global.env` is one value): for every plan
+(any number of appenders, targets, flags, call orders, build order), every terminal status of the
+two streams, every encoder and both settings of the tty_only parameter, the output of the process
+is the single-appender outputs one after the other, each depending on nothing but the environment,
+ITS OWN target, that target's terminal status and its own tty_only flag. -/
+theorem C18_appenders_independent (usesIsatty : Bool) (g : Global) (items : List PlanItem)
+    (enc : Enc) (levels : List Nat) :
+    runPlanEnc usesIsatty g items enc levels =
+      seqStreams (items.map fun it => appendAllEnc usesIsatty (setupOf g it) enc levels) := by
+  unfold runPlanEnc
+  rw [buildAllWith_eq usesIsatty g items, appendAllBuilt_eq]
 
-/-- one appender, one record per level, against the statement -/
-theorem C18_item_spec_fixed (g : Global) (it : PlanItem) (cs : Nat → Chunks) (levels : List Nat) :
-    appendAllWith 13 true (setupOf g it) cs levels = .ok (expectedItem g it levels cs) := by
-  have hi := setupOf_targetIsatty g it
-  induction levels with
-  | nil =>
-    simp only [appendAllWith, expectedItem, List.flatMap_nil]
-    split
-    · cases it.target <;> rfl
-    · rfl
-  | cons l ls ih =>
-    simp only [appendAllWith, C18_console_spec_fixed, ih, obind, expectedItem, expectedAppend, hi,
-      List.flatMap_cons]
-    have hs : (setupOf g it).ttyOnly = it.ttyOnly := rfl
-    have he : (setupOf g it).env = g.env := rfl
-    have ht : (setupOf g it).target = it.target := rfl
-    rw [hs, he, ht]
-    split
-    · have := Streams.on_append it.target
-        (specEncode (colourEnabled g.env (g.isatty it.target)) l (cs l))
-        (List.flatMap (fun l => specEncode (colourEnabled g.env (g.isatty it.target)) l (cs l)) ls)
-      simpa [Streams.append] using this
-    · rfl
+/-- WITHOUT that assumption: `COLOR_MODE` is read once. If the environment differs from build to
+build, every appender — the first and all later ones — is built with the colour mode of the
+environment at the FIRST build; later environments are not looked at. -/
+theorem C18_color_mode_read_once (u o r : Bool) (env0 : Env) (it0 : PlanItem)
+    (steps : List (Env × PlanItem)) :
+    (buildAllEnvs u o r {} ((env0, it0) :: steps)).1 =
+      ((env0, it0) :: steps).map fun x => builtWithMode u o r (colorMode env0) x.2 :=
+  buildAllEnvs_first u o r env0 it0 steps
 
-/-- The whole plan against the statement (the model's current flags are the repaired code): stdout
-and stderr carry exactly what the appenders targeting them must write, in build order. -/
-theorem C18_plan_spec (g : Global) (items : List PlanItem) (cs : Nat → Chunks) (levels : List Nat) :
-    runPlan g items cs levels = .ok (expectedPlan g items levels cs) := by
-  show runPlanWith 13 true g items cs levels = _
+/-- … so the statement's colour rule, read for the environment at an appender's own build time, is
+NOT met after a change: NO_COLOR=1 set after a first appender was built does not stop a second
+appender on a terminal from colouring. (Assumption "environment constant from the first console
+writer on"; `std::env::set_var` while logging is running is outside the property's quantifier.) -/
+theorem C18_env_change_after_first_writer_is_ignored :
+    let steps : List (Env × PlanItem) :=
+      [({}, ⟨.stdout, false, .targetThenTtyOnly⟩), ({ noColor := .one }, ⟨.stderr, false, .targetThenTtyOnly⟩)]
+    ((buildAllEnvs true true true {} steps).1.map (·.kind)) = [.tty, .tty] ∧
+    colourEnabled { noColor := .one } true = false := by decide
+
+/-- one appender of a plan, one record per level, against the statement — for any encoder that
+meets its own specification `want` -/
+theorem C18_item_spec (g : Global) (it : PlanItem) (enc : Enc) (want : Want) (levels : List Nat)
+    (henc : ∀ k l, enc k l = .ok (render (want k.isTty l))) :
+    appendAllEnc ttyOnlyUsesIsatty (setupOf g it) enc levels = .ok (expectedItemW g it levels want) :=
+  appendAllEnc_spec g it enc want levels henc
+
+/-- the whole plan against the statement, for any encoder that meets its own specification -/
+theorem C18_plan_spec_any_encoder (g : Global) (items : List PlanItem) (enc : Enc) (want : Want) (levels : List Nat)
+    (henc : ∀ k l, enc k l = .ok (render (want k.isTty l))) :
+    runPlanEnc true g items enc levels = .ok (expectedPlanW g items levels want) := by
   rw [C18_appenders_independent]
-  simp only [C18_item_spec_fixed]
+  simp only [appendAllEnc_spec g _ enc want levels henc]
   induction items with
   | nil => rfl
   | cons it its ih =>
-    simp only [List.map_cons, seqStreams, ih, obind, expectedPlan, List.foldr_cons]
+    simp only [List.map_cons, seqStreams, ih, obind, expectedPlanW, List.foldr_cons]
+
+/-- The whole plan against the statement, patterns without width parameters: stdout and stderr
+carry exactly what the appenders targeting them must write, in build order. -/
+theorem C18_plan_spec (g : Global) (items : List PlanItem) (cs : Nat → Chunks) (levels : List Nat) :
+    runPlan g items cs levels = .ok (expectedPlan g items levels cs) :=
+  C18_plan_spec_any_encoder g items (chunksEnc 13 cs) (chunksWant cs) levels
+    (fun k l => encodeChunksN_eq_spec 13 (Or.inr rfl) k l (cs l))
+
+/-- The same for a plan whose appenders use a pattern with (ordered) width parameters — what the
+harness drives the real `ConsoleAppender` with. -/
+theorem C18_plan_spec_formatted (g : Global) (items : List PlanItem) (f : Nat → FChunks)
+    (levels : List Nat) (h : ∀ l, fOrdered (f l) = true) :
+    runPlanFormatted g items f levels = .ok (expectedPlanW g items levels (formattedWant f)) :=
+  C18_plan_spec_any_encoder g items (formattedEnc 13 f) (formattedWant f) levels
+    (fun k l => C18_formatted_eq_spec k l (f l) (h l))
+
+/-! ## a stream that stops accepting bytes (R3) -/
+
+/-- What reaches a stream that accepts `budget` more bytes: a prefix of what the appender wanted
+to write; everything iff it fits; an error is reported iff it does not. -/
+theorem C18_failed_stream_prefix (budget : Nat) (bs : Bytes) :
+    (deliver budget bs).2 <+: bs ∧
+    ((deliver budget bs).1 = .ok bs ↔ bs.length ≤ budget) ∧
+    (bs.length ≤ budget → (deliver budget bs).2 = bs) ∧
+    (budget < bs.length → (deliver budget bs).1 = .err () ∧ (deliver budget bs).2 = bs.take budget) := by
+  unfold deliver
+  by_cases h : bs.length ≤ budget
+  · simp [h]
+  · simp [h, List.take_prefix]
+
+/-- … and nothing more can be said: after such a failure an opened style may stay without its
+reset on the stream (an Error record cut after 14 bytes: the style sequence and `ERROR`). Clause
+(H) is therefore read as conditional on the stream accepting the bytes. -/
+theorem C18_failed_stream_may_lack_reset :
+    let bs := render (specToks true 1 (.highlight (.text [69, 82, 82, 79, 82] .nil) (.text [10] .nil)))
+    scan ((deliver 14 bs).2) = some ([Tok.sgr { text := some 1, intense := some true }] ++ [69, 82, 82, 79, 82].map Tok.byte)
+    ∧ wellNested (sgrToks ([Tok.sgr { text := some 1, intense := some true }] ++ [69, 82, 82, 79, 82].map Tok.byte)) = false := by
+  decide
+
+/-! ## history: the two defects found with this model (code before 2b701f0 / 1bc24e0)
+
+These theorems speak about `setStyleN 12` and `doWriteWith false`, which no longer exist in /repo.
+They are kept as the record of what was wrong; their names do not start with `C18_`. -/
+
+def SgrWellformed (n : Nat) : Prop := ∀ s ∈ allStyles, setStyleN n s = .ok (sgr s)
+
+/-- [exhaustive: 243 styles] with the old 12-byte buffer `set_style` panicked on exactly the styles
+with text, background and `intense(false)` … -/
+theorem Hist_C18_sgr_overflow_exact :
+    ∀ s ∈ allStyles, (setStyleN 12 s).isPanic = overflowClass s := by
+  decide +kernel
+
+/-- … which are 64 of the 243. -/
+theorem Hist_C18_sgr_overflow_count :
+    (allStyles.filter overflowClass).length = 64 ∧ allStyles.length = 243 := by
+  decide +kernel
+
+theorem Hist_C18_sgr_wellformed_false_at_12 : ¬ SgrWellformed 12 := by
+  unfold SgrWellformed; decide +kernel
+
+theorem Hist_C18_sgr_overflow_witness :
+    (setStyleN 12 { text := some 1, background := some 4, intense := some false }).isPanic = true := by
+  decide
+
+def TtyOnlyStatement (usesIsatty : Bool) : Prop :=
+  ∀ (e : Env) (tty ttyOnly : Bool),
+    doWriteWith usesIsatty (writerKind (colorMode e) tty) tty ttyOnly = shouldWrite tty ttyOnly
+
+/-- NO_COLOR=1 on a real terminal silenced a tty_only appender. -/
+theorem Hist_C18_tty_only_no_color_on_terminal_was_silent :
+    doWriteWith false (writerKind (colorMode { noColor := .one }) true) true true = false
+    ∧ shouldWrite true true = true := by decide
+
+/-- CLICOLOR_FORCE=1 made a tty_only appender write into a pipe. -/
+theorem Hist_C18_tty_only_force_on_pipe_wrote :
+    doWriteWith false (writerKind (colorMode { clicolorForce := .one }) false) false true = true
+    ∧ shouldWrite false true = false := by decide
+
+theorem Hist_C18_tty_only_false_before_fix : ¬ TtyOnlyStatement false := by
+  intro h
+  have := h { noColor := .one } true true
+  revert this
+  decide
+
+/-- exact extent of the old defect: wrong on exactly the restricted appenders whose colour
+decision differs from "the target is a terminal". -/
+theorem Hist_C18_tty_only_exact_failures (e : Env) (tty ttyOnly : Bool) :
+    (doWriteWith false (writerKind (colorMode e) tty) tty ttyOnly ≠ shouldWrite tty ttyOnly) ↔
+      (ttyOnly = true ∧ colourEnabled e tty ≠ tty) := by
+  rcases e with ⟨a, b, c⟩
+  cases a <;> cases b <;> cases c <;> cases tty <;> cases ttyOnly <;> decide
 
 /-! ## non-vacuity (tests on samples, not proofs of the property) -/
 
@@ -429,7 +598,6 @@ example :
               27, 91, 48, 59, 51, 49, 59, 49, 109, 66, 27, 91, 48, 109, 67,
               27, 91, 48, 109, 68]) := by decide
 
-/-- the same pattern is escape-free input, so `C18_output_scans` applies to it -/
 example : escFree (.highlight (.text [65] (.highlight (.text [66] .nil) (.text [67] .nil))) (.text [68] .nil)) = true := by
   decide
 
@@ -440,6 +608,17 @@ example :
       = .ok ([27, 91, 48, 59, 51, 49, 59, 49, 109, 104, 101, 108, 108, 111, 27, 91, 48, 109, 124]) ∧
     encodeFormatted .tty 1 (.group { maxW := some 0 } (.highlight {} (.text ['a'] .nil) .nil) .nil)
       = .ok ([27, 91, 48, 59, 51, 49, 59, 49, 109, 27, 91, 48, 109]) := by decide
+
+/-- right-aligned `{h(a):*>3}`: the fill characters come BEFORE the style, the reset directly
+after the `a` — and the verdict rejects `style, reset, a` and a wrong text (the reviewer's two
+false passes) -/
+example :
+    specFToks true 1 (.highlight { minW := some 3, right := true, fill := '*' } (.text ['a'] .nil) .nil)
+      = [Tok.byte 42, Tok.byte 42, Tok.sgr { text := some 1, intense := some true }, Tok.byte 97, Tok.sgr {}] ∧
+    formattedVerdict true 1 (.highlight { minW := some 1 } (.text ['a'] .nil) .nil)
+      ([27,91,48,59,51,49,59,49,109] ++ [27,91,48,109] ++ [97]) ≠ .ok ∧
+    formattedVerdict true 1 (.highlight { minW := some 1 } (.text ['a'] .nil) .nil)
+      ([27,91,48,59,51,49,59,49,109] ++ [120,121,122] ++ [27,91,48,109]) ≠ .ok := by decide
 
 /-- a stream whose reset was swallowed is not well nested (what `sig=C18/highlight-reset-missing` reports) -/
 example : wellNested [{ text := some 1, intense := some true }] = false ∧
@@ -455,13 +634,11 @@ example :
     runPlan g [⟨.stderr, true, .viaConfig⟩, ⟨.stdout, true, .targetThenTtyOnly⟩] cs [2]
       = .ok { out := [], err := [27, 91, 48, 59, 51, 51, 109, 65, 27, 91, 48, 109, 10] } := by decide
 
-/-- a colour-neutral environment exists (hypothesis of the `_partial` theorems) and a forced one too -/
 example : colorMode {} = .auto ∧ colorMode { clicolorForce := .one } = .always ∧
     colorMode { noColor := .one, clicolorForce := .one } = .never := by decide
 
-/-- a style outside the overflow class with all three attributes, and its bytes -/
-example : setStyle { text := some 1, background := some 4, intense := some true }
-    = .ok [27, 91, 48, 59, 51, 49, 59, 52, 52, 59, 49, 109] := by decide
+example : setStyle { text := some 1, background := some 4, intense := some false }
+    = .ok [27, 91, 48, 59, 51, 49, 59, 52, 52, 59, 50, 50, 109] := by decide
 
 /-- the strict scanner rejects sequences outside the grammar (wrong order, missing 0, unterminated) -/
 example : scan [27, 91, 48, 59, 49, 59, 51, 49, 109] = none ∧ scan [27, 91, 109] = none ∧
